@@ -8,14 +8,19 @@ package sarama
 // Kafka beyond framing: it reads request frames with a parser of its own, extracts the unique token every
 // request carries, and handles the requests strictly in wire order with the behaviour the case scripts for
 // that request index (answer, answer after a hold, wrong correlation id, answer swapped with the next request,
-// truncated frame then close, invalid length field, garbage header, abrupt close, silence). Response bodies
-// are built with the vfref snapshot (reference codec); frames with vfref.Frame.
+// truncated frame then close, invalid length field, garbage header, abrupt close, silence, stalled body = intact
+// header and part of the body, connection left open, nothing more until the call has returned, then well-formed
+// frames for the requests after it). Response bodies are built with the vfref snapshot (reference codec); frames
+// with vfref.Frame.
 //
 // Oracles (none depends on time): a call that returns a response got the token of its own request, from a
 // request the server really answered, lying before the first fault of the connection; no call hangs
 // (quiescence rule); no panic; Close and a second Close return; correlation ids on one connection are unique;
 // an answered call before any fault does not fail; the number of response-expecting requests the server has
-// received and not yet handled never exceeds Net.MaxOpenRequests.
+// received and not yet handled never exceeds Net.MaxOpenRequests as long as the client provably serves the
+// connection (= up to the last correct answer that a call returned). A stalled body is a fault like the others:
+// the call it hits fails by read timeout, and every call outstanding then or issued later fails too, although
+// the server goes on answering them correctly once it has seen the stalled call return.
 
 import (
 	"encoding/binary"
@@ -46,13 +51,14 @@ type vfc14Call struct {
 }
 
 type vfc14Beh struct {
-	// answer | shortbody | wrongcorr | wrongcorr-bare (header only) | swap | truncate | close | badlen | garbage | silence
+	// answer | shortbody | wrongcorr | wrongcorr-bare (header only) | swap | truncate | close | badlen | garbage | silence |
+	// stallbody (intact header + part of the body, connection stays open; the server goes on only after the call has returned)
 	Kind string `json:"kind"`
 	// the request is handled only after Hold further requests have been received, or the client cannot send
 	// more without an answer, or no request arrived for the idle window (99 = "until the client is idle")
 	Hold int `json:"hold,omitempty"`
 	// wrongcorr: delta added to the correlation id; truncate: permille of the frame that is sent;
-	// badlen: the length field; garbage: seed of the header bytes
+	// stallbody: permille of the body that is sent; badlen: the length field; garbage: seed of the header bytes
 	Arg int64 `json:"arg,omitempty"`
 	// after a fault that does not need the connection closed: keep answering later requests correctly
 	KeepOpen bool `json:"keep_open,omitempty"`
@@ -72,7 +78,7 @@ type vfc14Case struct {
 	Close         *vfc14Close   `json:"close,omitempty"`
 }
 
-var vfc14FaultKinds = map[string]bool{"wrongcorr": true, "wrongcorr-bare": true, "swap": true, "truncate": true, "close": true, "badlen": true, "garbage": true, "silence": true}
+var vfc14FaultKinds = map[string]bool{"wrongcorr": true, "wrongcorr-bare": true, "swap": true, "truncate": true, "close": true, "badlen": true, "garbage": true, "silence": true, "stallbody": true}
 
 var vfc14KindVersions = map[string][]int16{
 	"metadata":      {0, 1, 4, 5},
@@ -125,7 +131,7 @@ func vfc14GenCase(t *rapid.T) *vfc14Case {
 	silence := false
 	for k := 0; k < nf; k++ {
 		at := rapid.IntRange(0, total-1).Draw(t, "fault_at")
-		b := vfc14Beh{Kind: rapid.SampledFrom([]string{"wrongcorr", "wrongcorr-bare", "swap", "swap", "truncate", "close", "badlen", "badlen", "garbage", "silence", "shortbody"}).Draw(t, "fault")}
+		b := vfc14Beh{Kind: rapid.SampledFrom([]string{"wrongcorr", "wrongcorr-bare", "swap", "swap", "truncate", "close", "badlen", "badlen", "garbage", "silence", "shortbody", "stallbody", "stallbody"}).Draw(t, "fault")}
 		b.Hold = rapid.SampledFrom([]int{0, 0, 1, 2, 4, 99}).Draw(t, "fault_hold")
 		b.KeepOpen = rapid.Bool().Draw(t, "keep_open")
 		switch b.Kind {
@@ -138,6 +144,10 @@ func vfc14GenCase(t *rapid.T) *vfc14Case {
 		case "garbage":
 			b.Arg = int64(rapid.IntRange(1, 1<<30).Draw(t, "garbage_seed"))
 		case "silence":
+			silence = true
+		case "stallbody":
+			// the stalled call returns only when Net.ReadTimeout expires: a short one, as for silence
+			b.Arg = int64(rapid.SampledFrom([]int{0, 0, 1, 250, 500, 750, 999}).Draw(t, "body_permille"))
 			silence = true
 		}
 		c.Script[at] = b
@@ -181,7 +191,10 @@ func (c *vfc14Case) valid() bool {
 		if b.Kind != "answer" && b.Kind != "shortbody" && !vfc14FaultKinds[b.Kind] {
 			return false
 		}
-		if b.Kind == "silence" && c.ReadTimeoutMs > 500 {
+		if (b.Kind == "silence" || b.Kind == "stallbody") && c.ReadTimeoutMs > 500 {
+			return false
+		}
+		if b.Kind == "stallbody" && (b.Arg < 0 || b.Arg > 999) {
 			return false
 		}
 		if (b.Kind == "wrongcorr" || b.Kind == "wrongcorr-bare") && int32(b.Arg) == 0 {
@@ -241,21 +254,37 @@ type vfc14CallRec struct {
 	Panic    string `json:"panic,omitempty"`
 }
 
+// vfc14Stall: what happened at a "stallbody" request. The server sent the header and Sent of Body body bytes and then
+// nothing, until it saw the call return (Outcome "call-returned"; every later byte on the connection has a larger
+// sequence number than the call's end) or until vfc14StallBound was over (Outcome "bound": the connection is closed,
+// nothing more is sent, and the first-fault clause is not judged for this stall).
+type vfc14Stall struct {
+	Index        int    `json:"request_index"`
+	Sent         int    `json:"body_bytes_sent"`
+	Body         int    `json:"body_bytes_declared"`
+	StartSeq     int64  `json:"start_seq"`
+	EndSeq       int64  `json:"end_seq"`
+	Outcome      string `json:"outcome"`
+	PendingAtEnd int    `json:"unhandled_requests_at_end"` // response-expecting requests received and not handled when the stall ended
+}
+
 type vfc14History struct {
-	Requests       []vfc14Req     `json:"requests"`
-	Calls          []vfc14CallRec `json:"calls"`
-	HighWater      int            `json:"high_water_unanswered"`
-	FirstFault     int            `json:"first_fault_index"` // -1 = none applied
-	DepthAtFault   int            `json:"unanswered_at_first_fault"`
-	ServerNotes    []string       `json:"server_notes,omitempty"`
-	CloseCalled    bool           `json:"close_called_by_racer"`
-	CloseErr       string         `json:"close_error,omitempty"`
-	SecondClose    string         `json:"second_close_error,omitempty"`
-	Panics         []string       `json:"panics,omitempty"`
-	Hang           string         `json:"hang,omitempty"`
-	Stacks         string         `json:"stacks,omitempty"`
-	PendingAtClose int            `json:"unanswered_when_close_called"`
-	Partial        string         `json:"partially_judged,omitempty"`
+	Requests        []vfc14Req     `json:"requests"`
+	Calls           []vfc14CallRec `json:"calls"`
+	Stalls          []vfc14Stall   `json:"stalls,omitempty"`
+	HighWater       int            `json:"high_water_unanswered"`        // as counted by the server until the first fault
+	ProvenHighWater int            `json:"high_water_unanswered_proven"` // the part of it that the occupancy clause judges (set by the oracle)
+	FirstFault      int            `json:"first_fault_index"`            // -1 = none applied
+	DepthAtFault    int            `json:"unanswered_at_first_fault"`
+	ServerNotes     []string       `json:"server_notes,omitempty"`
+	CloseCalled     bool           `json:"close_called_by_racer"`
+	CloseErr        string         `json:"close_error,omitempty"`
+	SecondClose     string         `json:"second_close_error,omitempty"`
+	Panics          []string       `json:"panics,omitempty"`
+	Hang            string         `json:"hang,omitempty"`
+	Stacks          string         `json:"stacks,omitempty"`
+	PendingAtClose  int            `json:"unanswered_when_close_called"`
+	Partial         string         `json:"partially_judged,omitempty"`
 }
 
 // ---------------------------------------------------------------------------------------------------------
@@ -282,6 +311,8 @@ type vfc14Server struct {
 	firstFault    int
 	depthAtFault  int
 	silent        bool
+	stalling      bool // a stallbody request is waiting for its call to return: the server still owes the rest of its script
+	stalls        []vfc14Stall
 	notes         []string
 	wireViolation string
 	accepted      int
@@ -373,7 +404,7 @@ func (s *vfc14Server) readLoop(conn *vfConn) {
 func (s *vfc14Server) busy() bool {
 	s.mu.Lock()
 	defer s.mu.Unlock()
-	return !s.responderDone && s.handled < len(s.reqs)
+	return !s.responderDone && (s.stalling || s.handled < len(s.reqs))
 }
 
 func (s *vfc14Server) received() int {
@@ -604,6 +635,51 @@ func (s *vfc14Server) apply(conn *vfConn, i int, r *vfc14Req, beh vfc14Beh) bool
 		s.mu.Unlock()
 		s.finish(r, "silence", true)
 		return false
+	case "stallbody":
+		// The intact header (right length, right correlation id) and part of the body; the connection stays open and the
+		// server sends nothing until it has SEEN the call return - which it does with a timeout error once
+		// Net.ReadTimeout is over, however late the client notices that. No wall-clock interval decides when the stall
+		// ends: were it a sleep, a client slow to notice its timeout could still be inside the body read when the next
+		// bytes arrive, and would rightly take them for the rest of this body. After the stall the rest of the body is
+		// never sent: the script goes on with the next requests, i.e. complete, well-formed frames for the calls that
+		// are outstanding or come later. A client that gave the connection up at the failed read fails them all; one
+		// that reads on finds these frames exactly where it expects the next header.
+		hl := 8 + int(r.hv)
+		if len(frame) <= hl { // nothing to withhold (no response body of this harness is empty)
+			return fault("close", false)
+		}
+		k := int(int64(len(frame)-hl) * beh.Arg / 1000)
+		if k > len(frame)-hl-1 {
+			k = len(frame) - hl - 1
+		}
+		if k < 0 {
+			k = 0
+		}
+		st := vfc14Stall{Index: r.Index, Sent: k, Body: len(frame) - hl}
+		s.mu.Lock()
+		s.stalling = true
+		s.mu.Unlock()
+		s.finish(r, fmt.Sprintf("stallbody(%d/%d)", k, len(frame)-hl), true)
+		st.StartSeq = s.run.seq()
+		_, _ = conn.Write(frame[:hl+k])
+		returned := s.run.waitReturned(r.Token, vfc14StallBound())
+		s.mu.Lock()
+		st.EndSeq = s.run.seq()
+		st.PendingAtEnd = s.unanswered
+		st.Outcome = "call-returned"
+		if !returned {
+			st.Outcome = "bound"
+			s.note("stallbody at request %d: the call had not returned after %v; connection closed, nothing more sent", r.Index, vfc14StallBound())
+		}
+		s.stalls = append(s.stalls, st)
+		s.stalling = false
+		s.mu.Unlock()
+		atomic.AddInt64(&s.run.progress, 1)
+		if !returned {
+			conn.Close()
+			return true
+		}
+		return false
 	}
 	s.finish(r, "answer", false)
 	_, _ = conn.Write(frame)
@@ -744,17 +820,51 @@ type vfc14Exec struct {
 
 func (x *vfc14Exec) seq() int64 { return atomic.AddInt64(&x.seqCtr, 1) }
 
-func (x *vfc14Exec) markReceived(tok string) {
+func (x *vfc14Exec) tokenCall(tok string) (g, n int, ok bool) {
 	p := strings.Split(tok, "-")
 	if len(p) != 3 {
-		return
+		return 0, 0, false
 	}
 	g, e1 := strconv.Atoi(p[1])
 	n, e2 := strconv.Atoi(p[2])
-	if e1 != nil || e2 != nil || g < 0 || g >= len(x.state) {
-		return
+	if e1 != nil || e2 != nil || g < 0 || g >= len(x.state) || n < 0 || n >= len(x.calls[g]) {
+		return 0, 0, false
 	}
-	atomic.CompareAndSwapInt32(&x.state[g], int32((n+1)<<2|1), int32((n+1)<<2|2))
+	return g, n, true
+}
+
+func (x *vfc14Exec) markReceived(tok string) {
+	if g, n, ok := x.tokenCall(tok); ok {
+		atomic.CompareAndSwapInt32(&x.state[g], int32((n+1)<<2|1), int32((n+1)<<2|2))
+	}
+}
+
+// returned: call n of caller g has come back to its caller (its record is complete).
+func (x *vfc14Exec) returned(g, n int) bool {
+	st := atomic.LoadInt32(&x.state[g])
+	return st == 3 || int(st>>2) > n+1 || (int(st>>2) == n+1 && st&3 == 0)
+}
+
+// vfc14StallBound bounds the wait of a stallbody request for its call (which needs Net.ReadTimeout <= 500 ms to
+// return). It only keeps a stuck case from blocking the run: a stall that ends this way is not judged.
+func vfc14StallBound() time.Duration {
+	return time.Duration(vfcore.EnvInt("VF_C14_STALL_BOUND_MS", 20000)) * time.Millisecond
+}
+
+// waitReturned blocks until the call that carries tok has returned; false if it has not within bound.
+func (x *vfc14Exec) waitReturned(tok string, bound time.Duration) bool {
+	g, n, ok := x.tokenCall(tok)
+	if !ok {
+		return false
+	}
+	start := time.Now()
+	for !x.returned(g, n) {
+		if time.Since(start) > bound {
+			return false
+		}
+		time.Sleep(100 * time.Microsecond)
+	}
+	return true
 }
 
 // clientCannotSend: every caller is finished or waits for the answer to a request the server already has.
@@ -1101,6 +1211,7 @@ func (x *vfc14Exec) collect(h *vfc14History) {
 	h.HighWater = s.high
 	h.FirstFault = s.firstFault
 	h.DepthAtFault = s.depthAtFault
+	h.Stalls = append(h.Stalls, s.stalls...)
 	h.ServerNotes = append(h.ServerNotes, s.notes...)
 	if s.wireViolation != "" {
 		h.ServerNotes = append(h.ServerNotes, "wire-violation: "+s.wireViolation)
@@ -1113,8 +1224,7 @@ func (x *vfc14Exec) collect(h *vfc14History) {
 		for n := range x.calls[g] {
 			// a call that never returned may still be written by its goroutine: copy what is safe
 			r := &x.calls[g][n]
-			st := atomic.LoadInt32(&x.state[g])
-			if st == 3 || int(st>>2) > n+1 || (int(st>>2) == n+1 && st&3 == 0) {
+			if x.returned(g, n) {
 				h.Calls = append(h.Calls, *r)
 			} else {
 				h.Calls = append(h.Calls, vfc14CallRec{Caller: g, N: n, Kind: r.Kind, Version: r.Version, Token: r.Token})
@@ -1169,15 +1279,28 @@ func vfc14Judge(c *vfc14Case, h *vfc14History) *vfcore.Failure {
 		byToken[r.Token] = i
 	}
 	ff := h.FirstFault
+	// a stall that ended at its bound (the call was not seen to return in time; the connection was closed and nothing
+	// more sent) decides nothing: the first-fault clause is not judged when it is the first fault
+	stallUnjudged := false
+	for _, st := range h.Stalls {
+		if st.Outcome != "call-returned" && st.Index == ff {
+			stallUnjudged = true
+		}
+	}
 	unexpectedTimeout := false
 	for _, cl := range h.Calls {
 		if !cl.Returned {
 			return fail("hang", "call %s has no result although every caller finished", cl.Token)
 		}
 		idx, recvd := byToken[cl.Token]
-		if cl.Timeout && !(ff >= 0 && recvd && idx >= ff) {
+		if cl.Timeout && recvd && !(ff >= 0 && idx >= ff) {
 			// a read timeout that the script did not cause (a hold outlasted Net.ReadTimeout on a loaded machine): the
-			// client gave the connection up on its own, so the completeness and occupancy clauses below are not judged
+			// client gave the connection up on its own, so the completeness clause below is not judged (the occupancy
+			// clause protects itself: it only looks at the history up to the last answer that came back).
+			// Only calls whose request the server received are looked at: the read that times out first belongs to a
+			// request that was written, and the server reads everything written until it closes its end at a fault;
+			// a call whose request got lost that way merely inherits the error of the connection, which after a silence
+			// or a stalled body IS a timeout.
 			unexpectedTimeout = true
 		}
 		if cl.Kind == "produce-noack" {
@@ -1202,9 +1325,22 @@ func vfc14Judge(c *vfc14Case, h *vfc14History) *vfcore.Failure {
 			return fail("phantom-response", "call %s returned a response but the server never received its request", cl.Token)
 		}
 		r := h.Requests[idx]
+		if ff >= 0 && idx >= ff && stallUnjudged {
+			continue
+		}
 		if ff >= 0 && idx >= ff {
-			return fail("success-after-fault", "call %s (request %d, server: %q) returned a response although the connection faulted at request %d (server: %q)",
-				cl.Token, idx, r.Beh, ff, h.Requests[ff].Beh)
+			// sticky failure: the first fault of the connection (for a stalled body: the read that timed out in the middle
+			// of the body) fails the call it hits, every call outstanding then and every later call
+			when := ""
+			for _, st := range h.Stalls {
+				if st.Index == ff && idx > ff && r.Seq < st.EndSeq {
+					when = "; the request was outstanding when the stalled call returned its error, the response was sent after that"
+				} else if st.Index == ff && idx > ff {
+					when = "; the request was sent after the stalled call had returned its error"
+				}
+			}
+			return fail("success-after-fault", "call %s (request %d, server: %q) returned a response although the connection faulted at request %d (server: %q)%s",
+				cl.Token, idx, r.Beh, ff, h.Requests[ff].Beh, when)
 		}
 		if r.Beh == "shortbody" {
 			return fail("undecodable-body-delivered", "call %s returned a response although the server sent a one-byte body", cl.Token)
@@ -1213,8 +1349,14 @@ func vfc14Judge(c *vfc14Case, h *vfc14History) *vfcore.Failure {
 			return fail("phantom-response", "call %s returned a response but the server's action for request %d was %q", cl.Token, idx, r.Beh)
 		}
 	}
+	if stallUnjudged {
+		h.Partial = "stalled body: the call was not seen to return within the bound: first-fault clause not judged"
+	}
 	if unexpectedTimeout {
-		h.Partial = "unexpected read timeout: spurious-error and wire-occupancy not judged"
+		if h.Partial != "" {
+			h.Partial += "; "
+		}
+		h.Partial += "unexpected read timeout: spurious-error not judged"
 	} else {
 		for _, cl := range h.Calls {
 			idx, recvd := byToken[cl.Token]
@@ -1225,13 +1367,51 @@ func vfc14Judge(c *vfc14Case, h *vfc14History) *vfcore.Failure {
 				return fail("spurious-error", "call %s (request %d) was answered correctly before any fault of the connection, yet it returned %s", cl.Token, idx, cl.Err)
 			}
 		}
-		if h.HighWater > c.MaxOpen {
-			sym := "wire-occupancy:>max+1"
-			if h.HighWater == c.MaxOpen+1 {
-				sym = "wire-occupancy:max+1"
-			}
-			return fail(sym, "the server held %d received, unanswered requests that expect a response; Net.MaxOpenRequests = %d", h.HighWater, c.MaxOpen)
+	}
+	// Wire occupancy, judged LAST: its symptom max+1 is a known finding (KF-C14-1) that about half of all cases show, and
+	// a failure returned by an earlier clause can then never be hidden behind it.
+	// The limit binds the client only while it serves the connection: once its receive loop has given the connection up
+	// (also on a read timeout of its own, which a loaded machine can produce before the server gets to act) the callers
+	// write without limit. So the mark is taken over that part of the history in which the client provably still served
+	// the connection: up to the last correct answer that a call returned as its response (the answer's bytes left after
+	// BehSeq, the receive loop read them, and giving up is final).
+	proven := int64(0)
+	for _, cl := range h.Calls {
+		if idx, recvd := byToken[cl.Token]; recvd && cl.HasResp && cl.Err == "" && h.Requests[idx].Beh == "answer" && h.Requests[idx].BehSeq > proven {
+			proven = h.Requests[idx].BehSeq
 		}
+	}
+	type event struct {
+		seq int64
+		d   int
+	}
+	var evs []event
+	for _, q := range h.Requests {
+		if !q.Expect {
+			continue
+		}
+		if q.Seq < proven {
+			evs = append(evs, event{q.Seq, +1})
+		}
+		if q.Beh != "" && q.BehSeq < proven {
+			evs = append(evs, event{q.BehSeq, -1})
+		}
+	}
+	sort.Slice(evs, func(i, j int) bool { return evs[i].seq < evs[j].seq })
+	cur := 0
+	for _, e := range evs {
+		cur += e.d
+		if cur > h.ProvenHighWater {
+			h.ProvenHighWater = cur
+		}
+	}
+	if h.ProvenHighWater > c.MaxOpen {
+		sym := "wire-occupancy:>max+1"
+		if h.ProvenHighWater == c.MaxOpen+1 {
+			sym = "wire-occupancy:max+1"
+		}
+		return fail(sym, "the server held %d received, unanswered requests that expect a response while the client still served the connection (it returned an answer sent later); Net.MaxOpenRequests = %d",
+			h.ProvenHighWater, c.MaxOpen)
 	}
 	return nil
 }
@@ -1313,9 +1493,6 @@ func vfc14Run(ci interface{}, r *vfcore.Rec) *vfcore.Failure {
 	if nto {
 		r.Class("read_timeout_seen")
 	}
-	if h.HighWater > c.MaxOpen {
-		r.Class("occupancy>max")
-	}
 	r.Count("calls", int64(len(h.Calls)))
 	r.Count("calls_ok", nok)
 	r.Count("calls_error", nerr)
@@ -1323,9 +1500,59 @@ func vfc14Run(ci interface{}, r *vfcore.Rec) *vfcore.Failure {
 	if h.HighWater >= 2 || (h.FirstFault >= 0 && h.DepthAtFault >= 2) {
 		r.NonTrivial("")
 	}
+	// stalled bodies: did the stall take place as scripted (first fault of the connection, the call seen to fail by
+	// timeout before the server went on), and what could a client that read on have found afterwards?
+	callByToken := map[string]*vfc14CallRec{}
+	for i := range h.Calls {
+		callByToken[h.Calls[i].Token] = &h.Calls[i]
+	}
+	for _, st := range h.Stalls {
+		if st.Outcome != "call-returned" {
+			r.Class("partially_judged:stall_bound")
+			continue
+		}
+		if st.Index != h.FirstFault || st.Index >= len(h.Requests) {
+			r.Class("stallbody:after_earlier_fault")
+			continue
+		}
+		cl := callByToken[h.Requests[st.Index].Token]
+		if cl == nil || !cl.Returned || !cl.Timeout {
+			r.Class("stallbody:call_failed_otherwise")
+			continue
+		}
+		r.Class("stallbody:timeout_seen")
+		later := false
+		for _, q := range h.Requests {
+			if q.Expect && q.Seq > st.EndSeq {
+				later = true
+			}
+		}
+		switch {
+		case st.PendingAtEnd > 0 && later:
+			r.Class("stallbody:timeout_seen:calls_outstanding+later_calls")
+		case st.PendingAtEnd > 0:
+			r.Class("stallbody:timeout_seen:calls_outstanding")
+		case later:
+			r.Class("stallbody:timeout_seen:later_calls_only")
+		default:
+			r.Class("stallbody:timeout_seen:last_call")
+		}
+		if st.PendingAtEnd > 0 && c.MaxOpen >= 2 {
+			r.Class("stallbody:timeout_seen:max_open>=2,calls_outstanding")
+		}
+		if h.CloseCalled {
+			r.Class("stallbody:timeout_seen:with_close_race")
+		}
+	}
 	f := vfc14Judge(c, h)
-	if h.Partial != "" {
+	if strings.Contains(h.Partial, "unexpected read timeout") {
 		r.Class("partially_judged:unexpected_read_timeout")
+	}
+	if h.ProvenHighWater > c.MaxOpen {
+		r.Class("occupancy>max")
+	}
+	if h.HighWater > h.ProvenHighWater && h.HighWater > c.MaxOpen && h.ProvenHighWater <= c.MaxOpen {
+		r.Class("occupancy>max:not_judged(no_answer_returned_after_it)")
 	}
 	return f
 }
